@@ -16,10 +16,11 @@ from ..report import AnalysisError, need
 from ..util import SelfHooks, text, tex_name, macro_classes
 
 # digestion loops whose zero-disposition paths are deliberate (one reason each)
+# (keyed by the class: the loop may live in digest() or in a private helper of it)
 DELIBERATE_DROP = {
-    'plasTeX.Base.LaTeX.Bibliography.thebibliography.digest':
+    'plasTeX.Base.LaTeX.Bibliography.thebibliography':
         'everything before the first \\bibitem is discarded on purpose (no text belongs there)',
-    'plasTeX.Base.LaTeX.Lists.List.digest':
+    'plasTeX.Base.LaTeX.Lists.List':
         'leading whitespace is dropped and a leading \\setcounter is digested in place',
 }
 
@@ -35,24 +36,40 @@ def check(chk):
     r78(chk, m)
     from . import shared
     shared.grouping_rules(chk, m, 'R7.9')
+    shared.verbatim_override_rules(chk, m, 'R7.10')
     chk.decline('word order and multiplicity for concrete documents; parent chains of every generated tree (runtime)')
 
 
 # ---------------------------------------------------------------------------
 def stream_loops(fn):
-    """for-loops of a digest implementation that draw from the digestion stream."""
-    params = [a.arg for a in fn.node.args.args]
+    """for-loops that draw tokens from a digestion stream: the loop runs over a plain name and its body hands that same
+    stream on to a digest() call or pushes a token back onto it (recognised by role, not by the name of the variable)."""
     out = []
     for n in M.walk_no_nested(fn.node):
-        if isinstance(n, ast.For) and isinstance(n.iter, ast.Name) and n.iter.id in params and n.iter.id in ('tokens', 'tok', 'stream'):
-            out.append(n)
+        if isinstance(n, ast.For) and isinstance(n.iter, ast.Name):
+            src = n.iter.id
+            uses = False
+            for c in ast.walk(n):
+                if isinstance(c, ast.Call):
+                    nm = M.call_name(c)
+                    if nm == '%s.push' % src:
+                        uses = True
+                    if nm.endswith('.digest') and any(isinstance(a, ast.Name) and a.id == src for a in c.args):
+                        uses = True
+                    if re.search(r'\.(digestUntil|_digest\w*)$', nm) and any(isinstance(a, ast.Name) and a.id == src for a in c.args):
+                        uses = True
+            if uses or (src in [a.arg for a in fn.node.args.args] and src in ('tokens', 'tok', 'stream') and fn.name in ('digest', 'digestUntil')):
+                out.append(n)
     return out
 
 
 def disposition_paths(m, fn, loop):
     tgt = text(loop.target)
     item = A.Sym('ITEM', truthy=True, attrs={'distinct': True})
-    it = A.Interp(model=m, scope=fn, max_iter=1, exc_edges=False)
+    hk = SelfHooks(m, fn.cls) if fn.cls is not None else A.Hooks()
+    hk.lookup = lambda interp, name, state: None
+    hk.should_inline = A.private_only
+    it = A.Interp(model=m, scope=fn, hooks=hk, max_iter=1, exc_edges=False, inline=2)
     it.h.keep = lambda ev: ev[0] in ('call', 'assume', 'continue', 'return')
     st = A.State({tgt: item})
     outs = it.block(loop.body, [st])
@@ -75,10 +92,10 @@ def disposition_paths(m, fn, loop):
 def r71(chk, m):
     R = chk.rule('R7.1', 'token linearity: on every path through one iteration of a digestion loop the drawn token is '
                  'appended once, or pushed back (and the loop left), or recognised as the end delimiter, or skipped as '
-                 'whitespace - never dropped, never placed twice', 9)
+                 'whitespace - never dropped, never placed twice', 7)
     seen = 0
     for fn in sorted(E.all_functions(m), key=lambda f: f.fullname):
-        if fn.name not in ('digest', 'digestUntil') or 'simpletal' in fn.fullname:
+        if 'simpletal' in fn.fullname or fn.fullname == 'plasTeX.TeX.TeX.parse':
             continue
         for loop in stream_loops(fn):
             seen += 1
@@ -89,7 +106,7 @@ def r71(chk, m):
             tgt = text(loop.target)
             for kind, app, push, assumed in paths:
                 tests = ' and '.join('%s%s' % ('' if v else 'not ', t) for t, v in assumed)
-                recognised = any(v and re.search(r'isinstance\(%s\b|%s == |type\(%s\) is type\(self\)|%s\.macroMode == ' % (tgt, tgt, tgt, tgt), t)
+                recognised = any(v and re.search(r'isinstance\(\w+\b|\b\w+ == |type\(\w+\) is type\(self\)|\.macroMode == ', t)
                                  for t, v in assumed)
                 ws = any(v and t.endswith('isElementContentWhitespace') for t, v in assumed)
                 if app + push > 1:
@@ -112,78 +129,121 @@ def r71(chk, m):
                         continue
                     bad.append('loop left with the token neither pushed back nor recognised as the end token [%s]' % tests)
             key = '%s :: for %s in %s' % (fn.fullname, tgt, text(loop.iter))
-            if fn.fullname in DELIBERATE_DROP and bad and all(b.startswith('dropped') for b in bad):
-                chk.ok(R, key, 'triaged exception: ' + DELIBERATE_DROP[fn.fullname])
+            owner = fn.cls.fullname if fn.cls is not None else ''
+            if owner in DELIBERATE_DROP and bad and all(b.startswith('dropped') for b in bad):
+                chk.ok(R, key, 'triaged exception: ' + DELIBERATE_DROP[owner])
                 continue
             chk.verdict(R, key, not bad,
                         'a drawn token can be ' + '; '.join(sorted(set(bad))[:3]) + ' - text would be lost or duplicated',
                         chk.where(fn, loop), '%d path(s) linear' % len(paths))
-    # the build loop of TeX.parse
+    # the build loop of TeX.parse (possibly in a private helper of it)
+    from .c05 import reachable_private
     fn = m.func('plasTeX.TeX', 'TeX.parse')
-    chk.analysed(fn)
-    loops = [n for n in M.walk_no_nested(fn.node) if isinstance(n, ast.For) and text(n.iter) == 'tokens']
-    need(len(loops) == 1, 'TeX.parse: build loop not found')
-    paths = disposition_paths(m, fn, loops[0])
+    cands = [(f, l) for f in [fn] + reachable_private(m, fn) for l in stream_loops(f)]
+    need(len(cands) == 1, 'TeX.parse: build loop not found (%d candidates)' % len(cands))
+    pf, loop = cands[0]
+    chk.analysed(pf)
+    paths = disposition_paths(m, pf, loop)
     chk.paths += len(paths)
     bad = [(k, a, p) for k, a, p, _ in paths if not (k in ('fall', 'continue') and a == 1 and p == 0)]
     chk.verdict(R, 'plasTeX.TeX.TeX.parse :: for item in tokens', not bad and bool(paths),
-                'the top-level build loop must append every item exactly once: %s' % bad, chk.where(fn, loops[0]))
-    need(seen >= 8, 'only %d digestion loops found: anchors moved' % seen)
+                'the top-level build loop must append every item exactly once: %s' % bad, chk.where(pf, loop))
+    need(seen >= 6, 'only %d digestion loops found: anchors moved' % seen)
 
 
 # ---------------------------------------------------------------------------
+def describe(node):
+    """Nested description of a heap subtree: label or ('text', str) with children."""
+    from . import domheap as D
+    if isinstance(node, A.TextObj):
+        return ('text', str(node))
+    kids = D.children(node)
+    lab = node.attrs.get('nodeName') if str(node.label).startswith('new-') else node.label
+    return (lab, tuple(describe(c) for c in kids)) if kids else (lab,)
+
+
 def r72(chk, m):
-    R = chk.rule('R7.2', 'Macro.paragraphs: every node popped from the container is placed exactly once into the rebuilt list; '
-                 'every rebuilt node is re-inserted once, in order; every paragraph among them is normalised with the document '
-                 'substitutions', 4)
-    fn = m.func('plasTeX', 'Macro.paragraphs')
+    from . import domheap as D
+    R = chk.rule('R7.2', 'Macro.paragraphs on the DOM heap: no node is lost, duplicated or reordered by the regrouping; text runs go '
+                 'into paragraphs, block elements get a paragraph of their own, a unit that outranks paragraphs ends the grouping; '
+                 'every paragraph and a container without paragraphs are normalised with the document substitutions; only empty '
+                 'paragraphs or paragraphs holding a single blank are removed', 5)
+    Macro = m.cls('plasTeX', 'Macro')
+    fn = m.find_method(Macro, 'paragraphs')
+    need(fn is not None, 'Macro.paragraphs not found')
     chk.analysed(fn)
-    wl = [n for n in M.walk_no_nested(fn.node) if isinstance(n, ast.While) and text(n.test) == 'self']
-    need(len(wl) == 1, 'Macro.paragraphs: regrouping loop not found')
-    loop = wl[0]
-    item = A.Sym('ITEM', truthy=True, attrs={'distinct': True})
+    lv = levels(m)
+    PAR, ENV, CMD, SEC = lv['PAR_LEVEL'], lv['ENVIRONMENT_LEVEL'], lv['COMMAND_LEVEL'], lv['SECTION_LEVEL']
 
-    class H(A.Hooks):
-        def call(self, interp, node, fname, args, kwargs, state):
-            if fname == 'self.pop':
-                return item
-            return None
-
-        def keep(self, ev):
-            return ev[0] in ('call', 'assume')
-    it = A.Interp(model=m, scope=fn, hooks=H(), max_iter=1, exc_edges=False)
-    outs = it.block(loop.body, [A.State({'newnodes': A.Sym('newnodes'), 'par': A.Sym('par')})])
-    bad = []
-    n = 0
-    for kind in ('fall', 'continue', 'break'):
-        for s, v in outs.get(kind, []):
-            n += 1
-            placed = [ev for ev in s.trace if ev[0] == 'call' and item in ev[2] and re.search(r'\.(append|appendChild|insert)$', ev[1])]
-            if len(placed) != 1:
-                bad.append('%d placements on a %s path' % (len(placed), kind))
-    chk.paths += n
-    chk.verdict(R, 'paragraphs: each popped node placed once', not bad and n >= 4,
-                'a node popped from the container is placed %s' % sorted(set(bad)), chk.where(fn, loop), '%d paths' % n)
-    # re-insertion loop
-    fl = [x for x in M.walk_no_nested(fn.node) if isinstance(x, ast.For) and 'enumerate(newnodes)' in text(x.iter)]
-    need(len(fl) == 1, 'Macro.paragraphs: re-insertion loop not found')
-    rl = fl[0]
-    ins = [c for c in ast.walk(rl) if isinstance(c, ast.Call) and M.call_name(c) == 'self.insert']
-    ok_ins = len(ins) == 1 and text(ins[0].args[0]) == 'i' and text(ins[0].args[1]) == 'item' and ins[0] in [x.value for x in rl.body if isinstance(x, ast.Expr)]
-    chk.verdict(R, 'paragraphs: rebuilt nodes re-inserted in order', ok_ins,
-                'every rebuilt node must be re-inserted unconditionally at its own index: %s' % [text(c) for c in ins], chk.where(fn, rl))
-    norm = [x for x in rl.body if isinstance(x, ast.If) and any(isinstance(c, ast.Call) and M.call_name(c) == 'item.normalize' for c in ast.walk(x))]
-    ok_norm = len(norm) == 1 and text(norm[0].test).replace(' ', '') in ('item.level==Node.PAR_LEVEL', 'item.level==self.PAR_LEVEL') and \
-        any('charsubs' in text(c) for c in ast.walk(norm[0]) if isinstance(c, ast.Call) and M.call_name(c) == 'item.normalize')
-    chk.verdict(R, 'paragraphs: every rebuilt paragraph is normalised', ok_norm,
-                'paragraph nodes must be normalised with the document substitutions under exactly `item.level == PAR_LEVEL` '
-                '(found guard %s): paragraphs wrapped around block elements would keep unmerged, unsubstituted text'
-                % [text(x.test) for x in norm], chk.where(fn, rl))
-    # the no-paragraph arm normalises too
-    early = [x for x in M.walk_no_nested(fn.node) if isinstance(x, ast.If) and 'parname is None and not force' in text(x.test).replace('(', '').replace(')', '')]
-    ok = len(early) == 1 and any(isinstance(c, ast.Call) and M.call_name(c) == 'self.normalize' and 'charsubs' in text(c) for c in ast.walk(early[0]))
-    chk.verdict(R, 'paragraphs: container without paragraphs is normalised', ok,
-                'when there is nothing to group, the container itself must be normalised with the document substitutions', chk.where(fn))
+    def build(spec):
+        d = D.Dom(m)
+        d.doc.attrs['charsubs'] = [('--', '\u2013')]
+        kids = []
+        for kind, label, arg in spec:
+            if kind == 'T':
+                n = d.text(label, arg)
+                n.attrs['level'] = CMD
+                n.attrs['blockType'] = False
+            elif kind == 'P':
+                sub = [d.text(l, v) for l, v in arg]
+                for t in sub:
+                    t.attrs['level'] = CMD
+                n = d.elem(label, sub)
+                n.attrs.update(level=PAR, nodeName='par', blockType=False)
+                for t in sub:
+                    t.attrs['parentNode'] = n
+            else:
+                sub = [d.text(l, v) for l, v in (arg or [])]
+                for t in sub:
+                    t.attrs['level'] = CMD
+                n = d.elem(label, sub)
+                for t in sub:
+                    t.attrs['parentNode'] = n
+                n.attrs.update(level={'B': ENV, 'S': SEC, 'I': CMD}[kind], blockType=(kind == 'B'))
+            kids.append(n)
+        E = d.elem('E', kids)
+        E.cls = Macro
+        E.attrs['level'] = ENV
+        for k in kids:
+            k.attrs['parentNode'] = E
+        return d, E
+    cases = [
+        ('text, a paragraph break and a block element', [('T', 't1', 'a--'), ('T', 't2', 'b'), ('P', 'p', [('t3', 'x')]), ('B', 'blk', [('b1', 'u--'), ('b2', 'v')]), ('T', 't4', 'c')], True,
+         (('par', (('text', 'a\u2013b'),)), ('p', (('text', 'x'),)), ('par', (('blk', (('text', 'u\u2013v'),)),)), ('par', (('text', 'c'),)))),
+        ('no paragraph break and no forcing: the container is normalised', [('T', 't1', 'a'), ('T', 't2', 'b--')], False,
+         (('text', 'ab\u2013'),)),
+        ('no paragraph break, forced', [('T', 't1', 'a'), ('I', 'em', None), ('T', 't2', 'b')], True,
+         (('par', (('text', 'a'), ('em',), ('text', 'b'))),)),
+        ('empty and blank paragraphs are removed', [('P', 'p', []), ('T', 'w', ' '), ('B', 'blk', None)], True,
+         (('par', (('blk',),)),)),
+        ('a sectioning unit ends the grouping', [('T', 't1', 'a'), ('S', 'sec', None), ('T', 't2', 'b')], True,
+         (('par', (('text', 'a'),)), ('sec',), ('text', 'b'))),
+    ]
+    for label, spec, force, want in cases:
+        d, E = build(spec)
+        try:
+            outs = D.run(m, fn, {'self': E, 'force': force, '__E': E, '__levels': {'par': PAR, '*': CMD}}, cls=Macro, max_iter=16,
+                         filt=lambda fname, node, info: info is None or info.cls is None or info.cls.name in ('Node', 'Macro', 'NamedNodeMap') or A.private_only(fname, node, info))
+        except D.Imprecise as e:
+            chk.undecided(R, 'paragraphs: %s' % label, str(e), chk.where(fn))
+            continue
+        chk.paths += len(outs)
+        got = set()
+        for k2, s2, v in outs:
+            E2 = s2.env['__E']
+            kids = D.children(E2)
+            if kids is None:
+                got.add((k2, 'TOP'))
+                continue
+            probs = list(D.link_problems(E2))
+            for c in kids:
+                if isinstance(c, A.Obj) and D.children(c):
+                    probs += D.link_problems(c)
+            got.add((k2, tuple(describe(c) for c in kids), tuple(probs)))
+        w = ('return', want, ())
+        chk.decide(R, 'paragraphs: %s' % label, {repr(g) for g in got}, {repr(w)},
+                   'paragraphs(force=%s) on the children %s gives (outcome, tree, link problems) = %s; expected %s'
+                   % (force, [(k, l) for k, l, a in spec], sorted(got, key=repr), w), chk.where(fn))
 
 
 # ---------------------------------------------------------------------------
@@ -242,7 +302,8 @@ def r73(chk, m):
                                                  'ELEMENT_NODE': 1})
         h = SelfHooks(m, fn.cls)
         h.keep = lambda ev: ev[0] == 'call'
-        it = A.Interp(model=m, scope=fn, hooks=h, max_iter=1, exc_edges=False)
+        h.should_inline = A.private_only
+        it = A.Interp(model=m, scope=fn, hooks=h, max_iter=1, exc_edges=False, inline=2)
         env = {text(loop.target): item, 'self.level': self_level}
         env.update(extra_env or {})
         outs = it.block(loop.body, [A.State(env)])
@@ -349,68 +410,78 @@ def r77(chk, m):
 
 # ---------------------------------------------------------------------------
 def r78(chk, m):
-    R = chk.rule('R7.8', 'nodes are deleted from the finished tree only when they carry no text: table rows only when every '
-                 'cell holds nothing but rule commands and whitespace; paragraphs only when empty or a single whitespace node', 4)
+    from . import domheap as D
+    R = chk.rule('R7.8', 'nodes are deleted from the finished tree only when they carry no text (decided on the DOM heap): a table '
+                 'cell is border-only iff it holds nothing but rule commands and blanks, a row iff every cell is, and '
+                 'Array.applyBorders removes exactly the border-only rows', 8)
     arr = 'plasTeX.Base.LaTeX.Arrays'
-    # (a) ArrayCell.isBorderOnly
-    fn = m.func(arr, 'Array.ArrayCell.isBorderOnly')
+    Array = m.cls(arr, 'Array')
+    Cell, Row = Array.nested['ArrayCell'], Array.nested['ArrayRow']
+
+    def mkcell(d, label, pars):
+        ps = []
+        for i, items in enumerate(pars):
+            kids = []
+            for kind, val in items:
+                if kind == 'rule':
+                    n = d.elem('%s-rule%d' % (label, len(kids)))
+                    n.attrs['__isa'] = {'BorderCommand', 'hline'}
+                    n.attrs['isElementContentWhitespace'] = False
+                elif kind == 'ws':
+                    n = d.text('%s-ws%d' % (label, len(kids)), ' ')
+                elif kind == 'text':
+                    n = d.text('%s-t%d' % (label, len(kids)), val)
+                else:
+                    n = d.elem('%s-e%d' % (label, len(kids)))
+                    n.attrs['__isa'] = {'Command'}
+                    n.attrs['isElementContentWhitespace'] = False
+                kids.append(n)
+            p = d.elem('%s-par%d' % (label, i), kids)
+            ps.append(p)
+        c = d.elem(label, ps)
+        c.cls = Cell
+        return c
+    cfn = Cell.properties['isBorderOnly']['get']
+    rfn = Row.properties['isBorderOnly']['get']
+    chk.analysed(cfn)
+    chk.analysed(rfn)
+    cell_cases = [('rules and blanks only', [[('rule', None), ('ws', None)]], True), ('a rule and text', [[('rule', None), ('text', 'x')]], False),
+                  ('text in a later paragraph', [[('ws', None)], [('text', 'x')]], False), ('empty cell', [], True),
+                  ('an ordinary command', [[('cmd', None)]], False), ('text before a rule', [[('text', 'x'), ('rule', None)]], False)]
+    for label, pars, want in cell_cases:
+        d = D.Dom(m)
+        c = mkcell(d, 'cell', pars)
+        outs = D.run(m, cfn, {'self': c}, cls=Cell)
+        got = {(k2, v if isinstance(v, bool) else 'TOP') for k2, s2, v in outs}
+        chk.decide(R, 'ArrayCell.isBorderOnly: %s' % label, got, {('return', want)},
+                   'a cell holding %s is border-only: %s; expected %s (its row is deleted when every cell is border-only)' % (pars, sorted(got, key=repr), want), chk.where(cfn))
+    B, CN = [[('rule', None)]], [[('text', 'x')]]
+    for label, cells, want in (('all cells border-only', [B, B], True), ('content in the last cell', [B, CN], False), ('content in the first cell', [CN, B], False),
+                               ('content in the middle', [B, CN, B], False)):
+        d = D.Dom(m)
+        row = d.elem('row', [mkcell(d, 'c%d' % i, p) for i, p in enumerate(cells)])
+        row.cls = Row
+        outs = D.run(m, rfn, {'self': row}, cls=Row)
+        got = {(k2, v if isinstance(v, bool) else 'TOP') for k2, s2, v in outs}
+        chk.decide(R, 'ArrayRow.isBorderOnly: %s' % label, got, {('return', want)},
+                   'a row whose cells are %s is border-only: %s; expected %s' % (['rules' if c is B else 'content' for c in cells], sorted(got, key=repr), want), chk.where(rfn))
+    fn = m.find_method(Array, 'applyBorders')
     chk.analysed(fn)
-    inner = [n for n in M.walk_no_nested(fn.node) if isinstance(n, ast.For) and not any(isinstance(x, ast.For) for x in ast.walk(n) if x is not n)]
-    need(len(inner) == 1, 'ArrayCell.isBorderOnly: item loop not found')
-    loop = inner[0]
-    item = A.Sym('ITEM', truthy=True, attrs={'distinct': True})
-    it = A.Interp(model=m, scope=fn, max_iter=1, exc_edges=False)
-    it.h.keep = lambda ev: ev[0] in ('assume', 'return')
-    outs = it.block(loop.body, [A.State({text(loop.target): item})])
-    bad = []
-    n = 0
-    for kind in ('fall', 'continue', 'break', 'return'):
-        for s, v in outs.get(kind, []):
-            n += 1
-            ass = {e[1]: e[2] for e in s.trace if e[0] == 'assume'}
-            harmless = any(v2 and (k.endswith('.isElementContentWhitespace') or re.search(r'isinstance\(\w+, (Array\.)?BorderCommand\)', k))
-                           for k, v2 in ass.items())
-            if kind in ('fall', 'continue') and not harmless:
-                bad.append('an item is counted as border-only under %s' % (ass or 'no test'))
-            if kind == 'return' and v is not False:
-                bad.append('returns %r inside the loop' % (v,))
-    tail = [st for st in fn.node.body if isinstance(st, ast.Return)]
-    ok_tail = len(tail) == 1 and text(tail[0].value) == 'True'
-    chk.verdict(R, 'ArrayCell.isBorderOnly', not bad and n >= 3 and ok_tail,
-                'a cell may be treated as border-only (and its row deleted) although it holds content: %s' % sorted(set(bad)), chk.where(fn), '%d paths' % n)
-    # (b) ArrayRow.isBorderOnly
-    fn = m.func(arr, 'Array.ArrayRow.isBorderOnly')
-    chk.analysed(fn)
-    src = [text(st) for st in fn.node.body if not (isinstance(st, ast.Expr) and isinstance(st.value, ast.Constant))]
-    loops = [st for st in fn.node.body if isinstance(st, ast.For)]
-    ok = len(loops) == 1 and len(loops[0].body) == 1 and isinstance(loops[0].body[0], ast.If) and \
-        text(loops[0].body[0].test) == 'not %s.isBorderOnly' % text(loops[0].target) and text(loops[0].body[0].body[0]) == 'return False' \
-        and text(fn.node.body[-1]) == 'return True'
-    chk.verdict(R, 'ArrayRow.isBorderOnly', ok, 'a row is border-only iff every cell is: %s' % src, chk.where(fn))
-    # (c) Array.applyBorders deletes only collected border-only rows
-    fn = m.func(arr, 'Array.applyBorders')
-    chk.analysed(fn)
-    pops = [c for c in M.calls_in(fn.node) if M.call_name(c) == 'self.pop']
-    collected = [n for n in M.walk_no_nested(fn.node) if isinstance(n, ast.Call) and re.fullmatch(r'(\w+)\.(insert|append)', M.call_name(n))
-                 and M.call_name(n).split('.')[0] == 'emptyrows']
-    from .c06 import guard_chain
-    guards = [guard_chain(fn.node, parent_stmt(fn.node, c)) for c in collected]
-    ok = len(pops) == 1 and bool(collected) and all(any(g == 'row.isBorderOnly' for g in gs) for gs in guards)
-    lp = [n for n in M.walk_no_nested(fn.node) if isinstance(n, ast.For) and any(c in list(ast.walk(n)) for c in pops)]
-    ok = ok and len(lp) == 1 and text(lp[0].iter) == 'emptyrows'
-    chk.verdict(R, 'Array.applyBorders deletes only border-only rows', ok,
-                'rows are deleted by %s; indices collected under %s' % ([text(p) for p in pops], guards), chk.where(fn))
-    # (d) Macro.paragraphs filter
-    fn = m.func('plasTeX', 'Macro.paragraphs')
-    fl = [n for n in M.walk_no_nested(fn.node) if isinstance(n, ast.For) and 'range(len(self) - 1, -1, -1)' in text(n.iter)]
-    need(len(fl) == 1, 'Macro.paragraphs: empty-paragraph filter not found')
-    pops = [c for c in ast.walk(fl[0]) if isinstance(c, ast.Call) and M.call_name(c) == 'self.pop']
-    guards = [guard_chain(fn.node, parent_stmt(fn.node, c)) for c in pops]
-    ok = len(pops) == 2 and all(g and g[0].replace(' ', '') == 'item.level==Node.PAR_LEVEL' for g in guards)
-    flat = sorted(' & '.join(x for x in g[1:] if x not in ('not not item', 'not (not item)')) for g in guards)
-    ok = ok and flat == ['len(item) == 1 and item[0].isElementContentWhitespace', 'not item']
-    chk.verdict(R, 'paragraphs drops only empty paragraphs', ok,
-                'paragraph nodes are removed under %s; only empty paragraphs or a single whitespace child may go' % flat, chk.where(fn, fl[0]))
+    d = D.Dom(m)
+    rows = []
+    for i, bo in enumerate((True, False, True, False, True)):
+        r = d.elem('R%d' % i)
+        r.cls = Row
+        r.attrs.update(isBorderOnly=bo, __isa={'ArrayRow'})
+        rows.append(r)
+    T = d.elem('table', rows)
+    T.cls = Array
+    T.attrs['colspec'] = None
+    outs = D.run(m, fn, {'self': T, '__T': T}, cls=Array, max_iter=10,
+                 filt=lambda fname, node, info: info is None or (getattr(node, 'name', '') != 'applyBorders' and (info.cls is None or info.cls.name in ('Node', 'Array'))))
+    got = {(k2, tuple(D.label_of(c) for c in D.children(s2.env['__T'])), tuple(D.link_problems(s2.env['__T']))) for k2, s2, v in outs}
+    chk.decide(R, 'Array.applyBorders deletes only border-only rows', {repr(g) for g in got}, {repr(('return', ('R1', 'R3'), ()))},
+               'applyBorders on rows [rules, content, rules, content, rules] leaves %s; expected exactly the content rows R1, R3' % sorted(got, key=repr), chk.where(fn))
 
 
 def parent_stmt(root, node):
